@@ -41,8 +41,11 @@ MANIFEST = {
             "a sent message in stream id, PPID and payload (C01_no_crosstalk); chunk-level corollary with plain hypotheses (C01_chunks); "
             "every prefix of the arrivals yields a prefix of the final deliveries (C01_every_instant); application level incl. str/bytes "
             "type (C01_app_ordered, appView_userMsgs); PPID mapping round trip for str/bytes incl. empty (ppid_roundtrip); the pure receiver "
-            "step refines the endpoint automaton's receiveData, dcReceive emits decodeUser's value (endpoint_receive_refines, "
-            "endpoint_dcReceive_user). The sliding-window versions are kept as defs (C01_ordered_sliding, C01_unordered_sliding); proved: "
+            "step refines the endpoint automaton's receiveData; dcReceive of a user message emits ONE message event with decodeUser's value "
+            "followed only by the outputs of a re-entrant application handler, and changes nothing but what one handler run may change "
+            "(a reaction consumed, chans[i].buffered, one dcQueue entry, one flush task; rx/inStreams/sackNeeded/dataChannels/tx equal); "
+            "echo handlers preserve order: k delivered messages consume the first k armed handlers and append their send()s to dcQueue in "
+            "delivery order (endpoint_receive_refines, endpoint_dcReceive_user, reactFrame_spelled, echo_preserves_order). The sliding-window versions are kept as defs (C01_ordered_sliding, C01_unordered_sliding); proved: "
             "their restriction to < 2^31 chunks per association (C01_ordered_partial, C01_unordered_partial).",
     "note": "The theorems are about the pure functions `Tx.sendAll`, `Recv.step/run`, `encodeUser/decodeUser` (Model/Sctp/Recv.lean), which call "
             "the shared models `Tx.enqueue`, `markReceived`, `InStream.addChunk/popMessages`.  They are tied to the real code by the "
@@ -65,8 +68,8 @@ ASSUMPTIONS = [
 ]
 TRUSTED_EXTRA = [
     "the pure receiver `Recv.step` is proved to be what one `receiveData` call of Model/Sctp/Endpoint.lean computes "
-    "(endpoint_receive_refines) and `dcReceive` on a user message is proved to leave the state alone and emit exactly `decodeUser`'s "
-    "value (endpoint_dcReceive_user); NOT proved: that `deliver` of DCEP control messages (OPEN/ACK → flush/transmit) leaves "
+    "(endpoint_receive_refines) and `dcReceive` on a user message is proved to emit exactly `decodeUser`'s value and to change only what a re-entrant "
+    "handler may change, never the receive side (endpoint_dcReceive_user, echo_preserves_order); NOT proved: that `deliver` of DCEP control messages (OPEN/ACK → flush/transmit) leaves "
     "`rx`/`inStreams` untouched, i.e. the multi-call refinement of the endpoint automaton — covered by the world traces only",
     "the sender is abstracted to the sequence of its `_send` calls: that `_transmit`/retransmission put exactly these chunks (unchanged "
     "wire fields) on the wire is checked by the trace correspondence (datagrams compared as bytes), not proved",
@@ -103,6 +106,8 @@ class TWorld(W.World):
     def _after(self, name, inp, exc):
         super()._after(name, inp, exc)
         self.trace[name][-1]["g"] = self.steps
+        for i, msg in self.ep[name].reacted:       # send() calls issued from inside an event handler in this step
+            self.sendlog.append((self.steps, name, i, msg))
 
     def apply(self, op):
         if op and op[0] == "send" and op[1] in self.ep and op[2] < len(self.ep[op[1]].channels):
